@@ -49,8 +49,7 @@ def py_floordiv(ex, a, b):
     if a.sort() == INT:
         used(ex, "int // and % follow Python floor semantics (quotient witness), divisor non-zero is an obligation")
         ex.oblige("division-by-nonzero", b != 0, kind="safety")
-        q = ex.fresh("q", INT)
-        r = ex.fresh("r", INT)
+        q, r = PYDIV(a, b), PYMOD(a, b)   # same terms wherever the same operands occur; ground instance of the pymod/pydiv axiom:
         ex.assume(a == q * b + r)
         ex.assume(z3.If(b > 0, z3.And(0 <= r, r < b), z3.And(b < r, r <= 0)))
         return q, r
@@ -274,6 +273,12 @@ class Library:
 
     # ---- attributes ------------------------------------------------------------------
     def getattr(self, ex, o, attr, node):
+        if hasattr(o, "pyvc_getattr"):
+            return o.pyvc_getattr(ex, attr)
+        if is_sym(o) and o.sort() == Leaf and ex.opts.get("leaf_attr") is not None:
+            r = ex.opts["leaf_attr"](ex, o, attr)
+            if r is not None:
+                return r
         if isinstance(o, Seq):
             return lambda ex_, *a, **k: self.seq_method(ex_, o, attr, a, k, node)
         if isinstance(o, dict):
@@ -381,6 +386,8 @@ class Library:
 
     # ---- items ---------------------------------------------------------------------------
     def getitem(self, ex, o, i, node):
+        if hasattr(o, "pyvc_getitem"):
+            return o.pyvc_getitem(ex, i)
         if isinstance(o, Seq):
             if isinstance(i, slice):
                 return self.seq_slice(ex, o, i, node)
